@@ -515,3 +515,51 @@ pub fn model_cases(args: &[String]) {
     }
     std::fs::write(&args[1], serde_json::to_string(&json!({"cases": ncases, "families": fams.into_inner().unwrap(), "node_kinds": kinds.into_inner().unwrap(), "failures": fails.into_inner().unwrap()})).unwrap()).unwrap();
 }
+
+/// gram-trace-record <seed> <corpus.json> <n_mut> <n_rand> <max_tokens> <out.ndjson>: parses of corpus / mutated / random texts by the REAL
+/// parser as records {text, toks: [{k, j}], ev: [...]} for validation against the grammar machine spec (GrammarTrace.tla).
+/// The token sequence is what LexedStr::to_input hands to the parser (non-trivia kinds, jointness).
+pub fn record_model_traces(args: &[String]) {
+    let seed: u64 = args[0].parse().unwrap();
+    let corpus: Vec<String> = serde_json::from_str(&std::fs::read_to_string(&args[1]).unwrap()).unwrap();
+    let n_mut: usize = args[2].parse().unwrap();
+    let n_rand: usize = args[3].parse().unwrap();
+    let max_tokens: usize = args[4].parse().unwrap();
+    let inputs = crate::gen::robustness_inputs(seed, &corpus, n_mut, n_rand);
+    let names = kinds_by_name();
+    let mut out = NdjsonOut::create(&args[5]);
+    let mut pieces: Vec<String> = vec![];
+    for t in &inputs {
+        // long texts are cut at statement boundaries so that every piece stays small enough for TLC
+        let mut cur = String::new();
+        for ch in t.chars() {
+            cur.push(ch);
+            if (ch == ';' || ch == '}' || ch == '\n') && cur.len() > 60 { pieces.push(std::mem::take(&mut cur)); }
+        }
+        if !cur.is_empty() { pieces.push(cur); }
+    }
+    let mut seen = std::collections::HashSet::new();
+    let (mut n, mut panics) = (0usize, vec![]);
+    for t in &pieces {
+        if !seen.insert(t.clone()) { continue; }
+        note_input(t);
+        let toks = guarded(|| {
+            let lexed = oq3_parser::LexedStr::new(t);
+            let idx: Vec<usize> = (0..lexed.len()).filter(|&i| !lexed.kind(i).is_trivia()).collect();
+            idx.iter().enumerate().map(|(k, &i)| {
+                let joint = (k + 1 < idx.len() && idx[k + 1] == i + 1) || (lexed.kind(i) == SyntaxKind::FLOAT_NUMBER && !lexed.text(i).ends_with('.'));
+                (format!("{:?}", lexed.kind(i)), joint)
+            }).collect::<Vec<_>>()
+        });
+        let toks = match toks { Ok(t) => t, Err(p) => { panics.push(json!({"text": t, "panic": p})); continue; } };
+        if toks.len() > max_tokens { continue; }
+        match real_events(&names, &toks) {
+            Ok(ev) => {
+                out.put(&json!({"text": t, "toks": toks.iter().map(|(k, j)| json!({"k": k, "j": j})).collect::<Vec<_>>(), "ev": ev}));
+                n += 1;
+            }
+            Err(p) => panics.push(json!({"text": t, "panic": p})),
+        }
+    }
+    println!("{}", json!({"recorded": n, "panics": panics}));
+}
